@@ -109,6 +109,7 @@ int main(int argc, char **argv) {
     }
     int rc = 0, st;
     while (wait(&st) > 0)
-        if (!WIFEXITED(st) || WEXITSTATUS(st)) rc = 4;
+        if (WIFSIGNALED(st)) { fprintf(stderr, "vwriters: writer process died of signal %d\n", WTERMSIG(st)); rc = 5; }
+        else if (!WIFEXITED(st) || WEXITSTATUS(st)) { if (rc != 5) rc = 4; }
     return rc;
 }
